@@ -82,9 +82,6 @@ func NewCircuitBreaker(settings Settings) *CircuitBreaker {
 	}
 
 	// Set default values if not provided
-	if cb.maxRequests == 0 {
-		cb.maxRequests = 1
-	}
 	if cb.interval == 0 {
 		cb.interval = time.Minute
 	}
@@ -96,6 +93,10 @@ func NewCircuitBreaker(settings Settings) *CircuitBreaker {
 	}
 	if cb.successThreshold == 0 {
 		cb.successThreshold = 1
+	}
+	if cb.maxRequests == 0 {
+		// enough trial requests for the breaker to be able to close again
+		cb.maxRequests = cb.successThreshold
 	}
 
 	return cb
